@@ -550,3 +550,80 @@ def inline_local_closure_calls(j, max_blocks=120):
             _inline_site(b, bi, c, untuple=True)
             done.setdefault(c["path"], []).append(b["path"])
     return done
+
+
+def decide_linear_bool_switches(body, max_back=6):
+    """A `switch` on a bool local whose value was assigned a constant a few blocks earlier on the only path into it
+    (what remains after paths have been separated) is replaced by the jump it always takes."""
+    n = 0
+    predmap = {}
+    for i, blk in enumerate(body["blocks"]):
+        for (pi, _slot) in []:
+            pass
+    # predecessor lists (normal flow)
+    preds = {i: [] for i in range(len(body["blocks"]))}
+    for i, blk in enumerate(body["blocks"]):
+        t = blk.get("term") or {}
+        tg = []
+        if t.get("k") in ("goto", "call", "drop", "assert") and isinstance(t.get("t"), int):
+            tg.append(t["t"])
+        if t.get("k") == "switch":
+            tg += list(t.get("tgts", [])) + [t.get("other")]
+        for x in tg:
+            if isinstance(x, int):
+                preds[x].append(i)
+        if isinstance(t.get("u"), int):
+            preds[t["u"]].append(i)
+    for si, blk in enumerate(body["blocks"]):
+        t = blk.get("term") or {}
+        if blk.get("cleanup") or t.get("k") != "switch" or t.get("dty") != "bool":
+            continue
+        d = t.get("d") or {}
+        pl = d.get("m") or d.get("c")
+        if not pl or pl.get("p"):
+            continue
+        L = pl["l"]
+        cur = si
+        val = None
+        first = True
+        for _ in range(max_back):
+            cb_ = body["blocks"][cur]
+            tt = cb_.get("term") or {}
+            if not first and tt.get("k") == "call" and (tt.get("dest") or {}).get("l") == L:
+                break
+            stop = False
+            for st in reversed(cb_["stmts"]):
+                if st.get("k") in ("assign", "setdiscr") and st.get("lhs", {}).get("l") == L:
+                    rv = st.get("rv") or {}
+                    if st["lhs"].get("p") or rv.get("k") != "use":
+                        stop = True
+                        break
+                    a = rv["a"]
+                    if "k" in a and a["k"].get("ty") == "bool":
+                        val = a["k"].get("u")
+                        stop = True
+                        break
+                    sp = a.get("c") or a.get("m")
+                    if sp and not sp.get("p"):
+                        L = sp["l"]
+                    else:
+                        stop = True
+                        break
+            if stop:
+                break
+            first = False
+            ps = [p_ for p_ in preds.get(cur, []) if not body["blocks"][p_].get("cleanup")]
+            if len(ps) != 1 or ps[0] == cur:
+                break
+            # the predecessor must reach us unconditionally or through a call return (not through another switch arm
+            # that could also define L)
+            cur = ps[0]
+        if val is None:
+            continue
+        tgt = t["other"]
+        for v_, tg_ in zip(t.get("vals", []), t.get("tgts", [])):
+            if v_ == val:
+                tgt = tg_
+        blk["term"] = {"k": "goto", "t": tgt, "sp": t.get("sp"), "x": None, "decided": [L, val]}
+        n += 1
+    return n
